@@ -19,7 +19,11 @@ import Dhcp.Driver.ClientLTS
       optional `cerr=<1|2>`: the conn's Close reports an error (1: but closes,
       2: and stays open - then Close cannot return).
       Output: `ok <alt> | <alt> | …`, every result the model allows, each
-      `tx=<t,…|-> ret=<t>:<resp<i>|noresp|ctx>|running close=<t|->`.
+      `tx=<t,…|-> ret=<t>:<resp<i>|noresp|ctx>|running close=<t|->`; each `<t>` is
+      followed by `:badbytes` / `:baddest` when the model's transmission
+      (Timed.wire = Timed.runObsB) does not carry the encoding of the request as
+      at call entry / does not go to the requested destination (never, for a
+      request that is not modified during the call: C12_bytes).
 
   `client4h|client6h T=<ns> n=<k> calls=<c> mut=<x|o|xo>`: c successive calls on
       one client with the SAME message object, mutated between calls (x: new
@@ -57,14 +61,31 @@ def parseEvent (matchNil : Bool) (s : String) : Option Timed.Event :=
 def parseEvents (matchNil : Bool) (s : String) : Option (List Timed.Event) :=
   if s == "-" then some [] else (s.splitOn ",").mapM (parseEvent matchNil)
 
-def showInts (l : List Int) : String :=
-  if l.isEmpty then "-" else ",".intercalate (l.map toString)
-
 def showOutcome : Timed.Outcome → String
   | .resp i => s!"resp{i}"
   | .noResp => "noresp"
   | .ctxErr => "ctx"
   | .writeErr => "werr"
+
+/-- The request and the destination are abstract in the driver: request value
+`v` (a version number: 0 = the request as it is at call entry, which is what the
+harness encodes as `want` before the call) encodes to `[v]`, destination 0 is
+the one handed to `SendAndRead`.  One call in which the caller leaves the
+request alone = `Call.const`. -/
+def drvEnc (v : Nat) : List UInt8 := [UInt8.ofNat v]
+def drvCall (version : Nat) : Timed.Call Nat Nat := Timed.Call.const drvEnc version 0
+
+/-- one transmission as the model with bytes has it (`Timed.wire`, =
+`Timed.runObsB` by `runObsB_sent`): the instant, `:badbytes` when the bytes are
+not the encoding of the request as at call entry, `:baddest` when the
+destination is not the requested one - the flags the harness prints for the
+real client's WriteTo calls. -/
+def showTx (c : Timed.Call Nat Nat) (tx : Timed.Tx Nat) : String :=
+  toString tx.t ++ (if tx.bytes = c.enc (c.reqAt 0) then "" else ":badbytes")
+    ++ (if tx.dest = 0 then "" else ":baddest")
+
+def showTxs (c : Timed.Call Nat Nat) (txs : List Int) : String :=
+  if txs.isEmpty then "-" else ",".intercalate ((Timed.wire c txs).map (showTx c))
 
 def showResult (close : Option Int) (r : Timed.Result) : String :=
   let ret := match r.ret with
@@ -73,7 +94,7 @@ def showResult (close : Option Int) (r : Timed.Result) : String :=
   let cl := match close with
     | some t => toString t
     | none => "-"
-  s!"tx={showInts r.txs} ret={ret} close={cl}"
+  s!"tx={showTxs (drvCall 0) r.txs} ret={ret} close={cl}"
 
 def stepTimed (args : List String) : Option String := do
   let f := field args
@@ -100,8 +121,8 @@ def stepHistory (args : List String) : Option String := do
   let ret := match r.ret with
     | some (t, o) => s!"{t}:{showOutcome o}"
     | none => "running"
-  let one := s!"{showInts r.txs}:{ret}"
-  pure ("ok " ++ " ".intercalate ((List.range calls).map (fun j => s!"c{j}={one}")))
+  -- call j is made with the request as mutated j times: every transmission of call j carries THAT encoding
+  pure ("ok " ++ " ".intercalate ((List.range calls).map (fun j => s!"c{j}={showTxs (drvCall j) r.txs}:{ret}")))
 
 def stepClient (op : String) (args : List String) : Option String :=
   match op with
